@@ -29,7 +29,7 @@ INJECTORS = {"insert_python_exec", "insert_python", "insert_python_eval", "appen
 MEMBERS = [("archive/data.pkl", b"<model pickle>"), ("archive/byteorder", b"little"), ("archive/data/0", b"\x00\x01"), ("archive/data/1", b""), ("archive/xdata.pkl", b"look-alike"), ("archive/version", b"3\n"), ("archive/.data/serialization_id", b"0123")]
 
 
-def interpret(repo: Repo, overwrite: bool):
+def interpret(repo: Repo, overwrite: bool, IN: str = "INPUT.pt", OUT: str = "OUTPUT.pt"):
     c = repo.cls(W)
     f = c.method("inject_payload")
     if f is None:
@@ -66,10 +66,17 @@ def interpret(repo: Repo, overwrite: bool):
         z.fields["()write"] = lambda *a, **k: log.append(("write-file", a)) or None
         return z
 
-    selfr = Record("Wrapper", {"path": "INPUT.pt", "formats": ["PyTorch v1.3"], "pickled": pick, "_pickled": pick, "force": False})
+    selfr = Record("Wrapper", {"path": IN, "formats": ["PyTorch v1.3"], "pickled": pick, "_pickled": pick, "force": False})
 
     def make_path(p):
-        r = Record("Path", {"p": str(p), "__str__": str(p)})
+        import posixpath
+
+        r = Record("Path", {"p": str(p), "__str__": str(p), "name": posixpath.basename(str(p)), "stem": posixpath.splitext(posixpath.basename(str(p)))[0], "suffix": posixpath.splitext(str(p))[1]})
+        r.fields["()with_name"] = lambda nm, _p=str(p): make_path(posixpath.join(posixpath.dirname(_p), nm))
+        r.fields["()with_suffix"] = lambda sx, _p=str(p): make_path(posixpath.splitext(_p)[0] + sx)
+        r.fields["()resolve"] = lambda *a, _r=r, **k: _r
+        r.fields["()absolute"] = lambda *a, _r=r, **k: _r
+        r.fields["()is_file"] = lambda _p=str(p): True
         r.fields["()rename"] = lambda dst: log.append(("rename", str(p), str(dst) if not isinstance(dst, Record) else dst.fields["p"])) or None
         r.fields["()exists"] = lambda: not any(x[0] == "rename" and x[1] == str(p) for x in log)
         r.fields["()unlink"] = lambda *a, **k: log.append(("remove", str(p))) or None
@@ -98,7 +105,7 @@ def interpret(repo: Repo, overwrite: bool):
             return Record("file", {})
         return _MISSING
 
-    env = {"self": selfr, "payload": "PAYLOAD", "output_path": "OUTPUT.pt", "injection": "insertion", "overwrite": overwrite}
+    env = {"self": selfr, "payload": "PAYLOAD", "output_path": OUT, "injection": "insertion", "overwrite": overwrite}
     ev = Evaluator(env, call_hook=hook)
     try:
         ev.run_body(f.node.body)
@@ -137,10 +144,10 @@ def run(rep: Report, tier: str):
     for order_i, order in enumerate(all_orders):
       MEMBERS = order
       names = [n for n, _ in MEMBERS]
-      for overwrite in (False, True):
-          f, log = interpret(repo, overwrite)
+      for overwrite, IN, OUT in [(False, "INPUT.pt", "OUTPUT.pt"), (True, "INPUT.pt", "OUTPUT.pt")] + ([(False, "models/model.pt", "scratch/model.pt"), (True, "models/model.pt", "scratch/model.pt")] if order_i == 0 else []):
+          f, log = interpret(repo, overwrite, IN, OUT)
           q, file = f.qualname, f.file
-          tag = f"overwrite={overwrite}" + (f",order#{order_i}" if order_i else "")
+          tag = f"overwrite={overwrite}" + (f",order#{order_i}" if order_i else "") + (",same-name-other-directory" if IN != "INPUT.pt" else "")
           writes = [x for x in log if x[0] == "write"]
           injects = [x for x in log if x[0] == "inject"]
           raised = [x for x in log if x[0] == "raised"]
@@ -165,7 +172,7 @@ def run(rep: Report, tier: str):
               elif data != orig:
                   problems.append(f"member {nm} is written as {data!r} instead of its own bytes {orig!r}")
           outs = {w[3] for w in writes}
-          if outs - {"OUTPUT.pt"}:
+          if outs - {OUT}:
               problems.append(f"members are written into {sorted(outs)}")
           if problems:
               rep.bad("C16.rewrite-loop", q, f"copy-discipline:{tag}", f"[{tag}] " + "; ".join(problems[:3]), file, f.line)
@@ -182,19 +189,19 @@ def run(rep: Report, tier: str):
           else:
               rep.bad("C16.one-injection", q, f"injection-count:{len(injects)}", f"[{tag}] {len(injects)} injection call(s) {[(x[1], x[2]) for x in injects]}; exactly one with the payload is required", file, f.line)
           # input path discipline
-          zin = [x for x in log if x[0] == "zip-open" and x[1] == "INPUT.pt"]
-          bad_modes = [x for x in zin if x[2] != "r"] + [x for x in log if x[0] == "open" and x[1] == "INPUT.pt" and any(c in str(x[2]) for c in "wax+")]
+          zin = [x for x in log if x[0] == "zip-open" and x[1] == IN]
+          bad_modes = [x for x in zin if x[2] != "r"] + [x for x in log if x[0] == "open" and x[1] == IN and any(c in str(x[2]) for c in "wax+")]
           renames = [x for x in log if x[0] in ("rename", "move", "replace", "copy", "copyfile")]
           removes = [x for x in log if x[0] == "remove"]
           if bad_modes:
               rep.bad("C16.input-read-only", q, f"input-opened-for-write:{tag}", f"[{tag}] the input archive is opened with mode {bad_modes[0][2]!r}", file, f.line)
           elif not overwrite:
-              if renames or removes or any(w[3] == "INPUT.pt" for w in writes):
+              if renames or removes or any(w[3] == IN for w in writes):
                   rep.bad("C16.input-read-only", q, "input-touched-without-overwrite", f"[{tag}] the input (or output) is renamed/removed/written although overwrite was not requested: {renames + removes}", file, f.line)
               else:
                   rep.ok("C16.input-read-only", q, f"[{tag}] input opened read-only {len(zin)} time(s); nothing renamed or removed", f"{file}:{f.line}")
           else:
-              ok = len(renames) == 1 and renames[0][1] == "OUTPUT.pt" and renames[0][2] == "INPUT.pt" and not any(r[1] == "INPUT.pt" for r in removes)
+              ok = len(renames) == 1 and renames[0][1] == OUT and renames[0][2] == IN and not any(r[1] == IN for r in removes)
               if ok:
                   rep.ok("C16.input-read-only", q, f"[{tag}] output renamed onto the input; no stray output left (removes: {removes})", f"{file}:{f.line}")
               else:
